@@ -9,7 +9,7 @@ def run(ctx):
     quick = ctx.tier == "quick"
     vlib.mc(ctx, "WatchLog", "MC_WatchLog_quick.cfg", timeout=1200)
     if not quick:
-        for cfg in ["MC_WatchLog_t1.cfg", "MC_WatchLog_t2.cfg", "MC_WatchLog_t3.cfg", "MC_WatchLog_t4.cfg"]:
+        for cfg in ["MC_WatchLog_t1.cfg", "MC_WatchLog_t2.cfg", "MC_WatchLog_t3.cfg", "MC_WatchLog_t4.cfg", "MC_WatchLog_t5.cfg"]:
             vlib.mc(ctx, "WatchLog", cfg, timeout=3000)
     configs = watchlib.RING_CONFIGS[:3] if quick else watchlib.RING_CONFIGS
     groups = watchlib.gen_groups(ctx, configs, 40 if quick else 400, 40 if quick else 60)
